@@ -1,10 +1,10 @@
 SPECIFICATION Spec
 CONSTANTS
  Native = "LITTLE"
- ScalarTypes = {"u8", "bool", "i16", "u16", "i32", "f32", "i64", "u64", "f64"}
+ ScalarTypes = {"u8", "i8", "bool", "i16", "u16", "i32", "f32", "i64", "f64"}
  ArrayTypes = {"u8", "bool", "i16", "u32", "f32", "i64", "f64"}
- ArrayLens = {0, 2}
- NVals = 1
+ ArrayLens = {0, 1, 3}
+ NVals = 2
  MaxOps = 4
  KeepHist = TRUE
 VIEW View
